@@ -97,7 +97,8 @@ void c6_reset(void)
 	fibre_eventq_init(&evq, body_h, evq_store, (size_t)(2 * C6.evq_depth), 2);
 	fibre_init(&fy, body_y); fibre_init(&fz, body_z);
 	memset(&P, 0, sizeof(P));
-	for (int i = 0; i < C6.prefill_aq; i++) fibre_run_atomic(&fy);
+	/* prefill_aq = n: n requests for Y; 10 + n: the first of the n is for Z (the only request that fibre has) */
+	for (int i = 0; i < C6.prefill_aq % 10; i++) fibre_run_atomic(i == 0 && C6.prefill_aq >= 10 ? &fz : &fy);
 }
 void c6_register_regions(void)
 {
